@@ -1,7 +1,7 @@
 """C10 — sorting reader, merge reader, reducing merge over scripted upstreams at every spill/canary/batch size."""
 PID = "C10"
 EXTRA_TARGETS = ("BS.Properties.C10m",)
-CASE_LIMIT = {"C10": 15}   # seconds: these cases are function calls, not sessions
+CASE_LIMIT = {"C10": 90}   # seconds: these cases are function calls, not sessions
 RULE = ("sort: inputs of 0..60 rows (keys 0..9, many equal), canary 1..8, spill target 1..400 bytes, spill batch 1..8, "
         "upstream scripts with zero-row reads and both EOF placements, injected read errors; merge: 0..5 sorted streams "
         "(some empty), spill batch 1..8, scripts without zero-row reads; reduce: 0..5 streams each sorted with unique keys; "
